@@ -39,7 +39,7 @@ PROPS = {
                 GEN + "both build profiles; generations are reconstructed from the trace (closure runs in order, consecutive node indices); "
                 "non-trivial = distinct history in which a bind closure ran at least twice",
                 builds=("debug", "release"), nq=200),
-    "C04": spec(["IncrVerif.Props.C04", "IncrVerif.Props.C01History", "IncrVerif.Props.C03Nested", "IncrVerif.Props.C17History", "IncrVerif.Props.C06History"], [("general", 0.3), ("bind", 0.3), ("expert", 0.2), ("subs", 0.1), ("varw", 0.1)],
+    "C04": spec(["IncrVerif.Props.C04", "IncrVerif.Props.C01History", "IncrVerif.Props.C03Nested", "IncrVerif.Props.C17History", "IncrVerif.Props.C06History", "IncrVerif.Props.C04Full"], [("general", 0.3), ("bind", 0.3), ("expert", 0.2), ("subs", 0.1), ("varw", 0.1)],
                 ["api"], GEN + "both build profiles (debug assertions on and off); non-trivial = distinct history in which node functions ran",
                 builds=("debug", "release"), nq=200),
     "C05": spec(["IncrVerif.Props.C05", "IncrVerif.Props.C01History"], [("general", 0.3), ("bind", 0.3), ("expert", 0.25), ("life", 0.15)], ["api", "ev", "stats"],
